@@ -202,6 +202,9 @@ def gen_case(run_seed: int, index: int, tier: str) -> dict:
                       # the optional second output is requested call by call; bit inputs arrive in several dtypes
                       "second": bool(comp.get("second_output")) and rng.random() < 0.5,
                       "dtype": rng.choice([None, None, None, "float64", "int32", "int64", "float16", "bfloat16", "uint8"]) if kind in ("encoder", "decoder_hard", "modulator") else None,
+                      # a constraint is also called on the same signals in another precision; those calls are part of the history
+                      # only (their answers differ by rounding and are not compared), later calls must not be affected by them
+                      "history_only_dtype": rng.choice(["bfloat16", "float16", "float64"]) if kind == "constraint" and rng.random() < 0.15 else None,
                       # every row is the same stored word (an expanded view, stride 0): rows must still be treated one by one
                       "expanded": lay in ("2d", "batch") and rng.random() < 0.1})
     if rng.random() < 0.5 and calls:
@@ -430,12 +433,24 @@ def execute(case: dict) -> RunResult:
             res.probes["input.expanded_view"] += 1
         else:
             x = _assemble(comp, [tensors[m] for m in members], lay)
-        if call.get("noncontig") and x.dim() >= 2 and not call.get("expanded"):
+        if call.get("noncontig") and x.dim() >= 3 and ci % 2 and not call.get("expanded"):
+            x = x.transpose(0, 1).contiguous().transpose(0, 1)  # same values, the two batch dimensions swapped in memory
+            res.probes["input.batch_dims_permuted_in_memory"] += 1
+        elif call.get("noncontig") and x.dim() >= 2 and not call.get("expanded"):
             x = x.transpose(0, -1).contiguous().transpose(0, -1)  # same values, non-contiguous memory
             res.probes["input.noncontiguous"] += 1
         if call.get("dtype"):
             x = x.to({"float64": torch.float64, "int32": torch.int32, "int64": torch.int64, "float16": torch.float16, "bfloat16": torch.bfloat16, "uint8": torch.uint8}[call["dtype"]])
             res.probes[f"input.dtype_{call['dtype']}"] += 1
+        if call.get("history_only_dtype"):
+            hd = {"bfloat16": torch.bfloat16, "float16": torch.float16, "float64": torch.float64}[call["history_only_dtype"]]
+            try:
+                with torch.no_grad():
+                    fn(x.to(torch.complex64 if (torch.is_complex(x) and hd != torch.float64) else (torch.complex128 if torch.is_complex(x) else hd)))
+                res.faults["history.call_in_another_precision"] += 1
+            except Exception:
+                res.probes["rejected.other_precision"] += 1
+            continue
         x0 = x.clone()
         f = fn
         if call["fresh"]:
